@@ -190,6 +190,50 @@ def random_claim(rng):
     return c
 
 
+def pb_varint(n):
+    out = bytearray()
+    while True:
+        b = n & 0x7f
+        n >>= 7
+        out.append(b | (0x80 if n else 0))
+        if not n:
+            return bytes(out)
+
+
+def pb_unknown_fields(rng):
+    """well-formed protobuf fields with numbers no release of the claim schema defines"""
+    out = b''
+    for _ in range(rng.randrange(1, 3)):
+        number = rng.choice([99, 120, 2000, 536870911])
+        if rng.random() < 0.5:
+            out += pb_varint(number << 3) + pb_varint(rng.choice([0, 1, 7, 300, 2 ** 40]))
+        else:
+            data = rng.randbytes(rng.choice([0, 1, 15, 200]))
+            out += pb_varint(number << 3 | 2) + pb_varint(len(data)) + data
+    return out
+
+
+def with_unknown_fields(rng, claim):
+    """the same claim as written by a newer release: extra fields at the top level and/or inside the stream message.
+    Returns None when the protobuf runtime does not keep them (then there is nothing to check)."""
+    known = claim.to_message_bytes()
+    c = Claim()
+    c.message.ParseFromString(known)
+    where = rng.choice(['top', 'nested', 'both'])
+    extra = b''
+    if where in ('top', 'both'):
+        e = pb_unknown_fields(rng)
+        c.message.MergeFromString(e)
+        extra += e
+    if where in ('nested', 'both') and c.message.WhichOneof('type') == 'stream':
+        e = pb_unknown_fields(rng)
+        c.message.stream.MergeFromString(e)
+        extra += e
+    if not extra or len(c.to_message_bytes()) < len(known) + len(extra):
+        return None
+    return c
+
+
 class Env:
     def __init__(self, loop):
         self.loop = loop
@@ -363,7 +407,13 @@ def check_channel_signature(run, model, env, rng, idx, kind='claim'):
         sup.emoji = rng.choice(['👍', 'x', ''])
         txo = Output.pay_support_data_pubkey_hash(CENT, 'name', rng.randbytes(20).hex(), sup, pkh)
     else:
-        txo = Output.pay_claim_name_pubkey_hash(CENT, 'name%d' % rng.randrange(9), random_claim(rng), pkh)
+        claim = random_claim(rng)
+        if idx % 3 == 1:
+            newer = with_unknown_fields(rng, claim)
+            if newer is not None:
+                claim = newer
+                run.count('claim-with-unknown-fields')
+        txo = Output.pay_claim_name_pubkey_hash(CENT, 'name%d' % rng.randrange(9), claim, pkh)
     pos = rng.randrange(0, 3)
     outs = [Output.pay_pubkey_hash(1000 + j, rng.randbytes(20)) for j in range(pos)] + [txo]
     tx = Transaction().add_inputs([first_in] + extra_ins).add_outputs(outs)
@@ -418,6 +468,8 @@ def check_channel_signature(run, model, env, rng, idx, kind='claim'):
                                 channel=ch_hash.hex(), message=message.hex())
             run.compare('C04.channel_digest', case, impl_digest.hex(), sha256(bytes.fromhex(pieces)).hex())
             bad = mutate_channel_signed(run, env, rng, case, txo, channel, kind, tx)
+            if not bad:
+                bad = mutate_wire_payload(run, env, rng, raw, pos, kind, channel, pub)
     if bad:
         run.violation(case, bad, signature={'kind': 'channel-signature', 'raw': raw.hex()[:64]})
 
@@ -511,6 +563,135 @@ def mutate_channel_signed(run, env, rng, case, txo, channel, kind, tx):
         return 'restored object no longer validates (harness error?)'
     run.count('mutations', n)
     return None
+
+
+def independent_channel_verdict(raw, pos, kind, pub):
+    """validity of the channel signature of output `pos`, from the raw transaction bytes alone"""
+    ptx = parse_legacy_tx(raw)
+    script = ptx['outs'][pos]['script']
+    if kind == 'support':
+        o = 1
+        _, o = read_push(script, o)
+        _, o = read_push(script, o)
+        blob, o = read_push(script, o)
+    else:
+        blob = extract_claim_parts(script)
+    if len(blob) < 85 or blob[0] != 1:
+        return False
+    first_outpoint = ptx['ins'][0]['hash'] + struct.pack('<I', ptx['ins'][0]['index'])
+    return ecdsa_verify_compact(pub, sha256(first_outpoint + blob[1:21] + blob[85:]), blob[21:85])
+
+
+def mutate_wire_payload(run, env, rng, raw, pos, kind, channel, pub):
+    """content changes made to the payload AS CARRIED IN THE TRANSACTION (well-formed extra protobuf fields appended
+    to or put in front of the signed message): the signature covers those bytes, so validation must fail, and the
+    library's verdict on the re-read transaction must be the independent verdict over the raw bytes"""
+    key = 'support' if kind == 'support' else 'claim'
+    n = 0
+    for where in ('append', 'prepend'):
+        t = Transaction(raw)
+        txo = t.outputs[pos]
+        payload = txo.script.values[key]
+        if not isinstance(payload, bytes):
+            return None
+        extra = pb_unknown_fields(rng)
+        new_payload = payload + extra if where == 'append' else payload[:85] + extra + payload[85:]
+        txo.script.values[key] = new_payload
+        txo.script.generate()
+        t._reset()
+        raw2 = t.raw
+        indep = independent_channel_verdict(raw2, pos, kind, pub)
+        lib = _still_valid(lambda: Transaction(raw2).outputs[pos].is_signed_by(channel, env.ledger))
+        n += 1
+        if indep:
+            return f'harness: independent verifier accepts a payload with {where}ed bytes'
+        if lib:
+            return (f'bytes were {where}ed to the signed message carried in the transaction (an extra protobuf field, '
+                    f'{extra.hex()}) and the re-read claim still validates')
+    run.count('wire-mutations', n)
+    return None
+
+
+def check_sign_sequences(run, env, rng, idx):
+    """one claim OBJECT through a history of sign / clear_signature / edit / re-read operations, starting fresh, from a
+    current-format signed transaction or from a transaction signed by an earlier release: after every step the object
+    validates against exactly the channel that signed it last, unless it was edited since"""
+    entries = [e for e in json.load(open(CORPUS))]
+    legacy = [e for e in entries
+              if Transaction(bytes.fromhex(e['txs']['stream_tx'])).outputs[0].signable.unsigned_payload]
+    chans = {'A': env.channel(rng, 11), 'B': env.channel(rng, 12)}
+    start = rng.choice(['fresh', 'current-signed', 'legacy-signed'] if legacy else ['fresh', 'current-signed'])
+    pkh = rng.randbytes(20)
+    signer, dirty = None, False
+    if start == 'legacy-signed':
+        prev = Transaction(bytes.fromhex(legacy[0]['txs']['stream_tx'])).outputs[0]
+        txo = Output.pay_update_claim_pubkey_hash(prev.amount, prev.claim_name, prev.claim_id, prev.claim, pkh)
+        tx = Transaction().add_inputs([Input.spend(prev)]).add_outputs([txo])
+    else:
+        claim = Claim()
+        claim.stream.title = 'sequence %d' % idx
+        txo = Output.pay_claim_name_pubkey_hash(CENT, 'seq', claim, pkh)
+        tx = Transaction().add_inputs([Input.spend(funding_output(rng, COIN, rng.randbytes(20), rng.randrange(3)))]).add_outputs([txo])
+        if start == 'current-signed':
+            txo.sign(chans['A'])
+            tx._reset()
+            tx = Transaction(tx.raw)
+            txo = tx.outputs[0]
+            signer = 'A'
+    ops = []
+    n_ops = rng.randrange(2, 7)
+    case = {'kind': 'sign-sequence', 'index': idx, 'start': start, 'ops': ops}
+    bad = None
+    for step in range(n_ops):
+        choices = ['sign:A', 'sign:B', 'clear', 'clear-signable', 'reread']
+        if not (start == 'legacy-signed' and not any(o.startswith('sign') for o in ops)):
+            choices.append('edit')   # an old-format object keeps its signed bytes aside; editing it is out of scope
+        if start == 'legacy-signed' and not ops:
+            choices = ['sign:A', 'sign:B', 'clear', 'clear-signable']
+        op = rng.choice(choices)
+        ops.append(op)
+        if op.startswith('sign:'):
+            txo.sign(chans[op[5:]])
+            tx._reset()
+            signer, dirty = op[5:], False
+        elif op == 'clear':
+            txo.clear_signature()
+            signer, dirty = None, False
+        elif op == 'clear-signable':
+            txo.signable.clear_signature()
+            signer, dirty = None, False
+        elif op == 'edit':
+            txo.claim.stream.title = txo.claim.stream.title + '!'
+            dirty = dirty or signer is not None
+        elif op == 'reread':
+            txo.script.generate()
+            tx._reset()
+            tx = Transaction(tx.raw)
+            txo = tx.outputs[0]
+        if signer is None:
+            if txo.signable.is_signed:
+                bad = f'after {ops} the claim still reports a signature although it was cleared'
+                break
+            continue
+        for name, ch in chans.items():
+            for ledger in (env.ledger, None):
+                try:
+                    got = bool(txo.is_signed_by(ch, ledger))
+                except Exception as e:  # noqa
+                    got = f'{type(e).__name__}: {e}'
+                want = (name == signer) and not dirty
+                if got is not want and got != want:
+                    bad = (f'after {ops} (start: {start}) is_signed_by(channel {name}, ledger={"yes" if ledger else "no"}) '
+                           f'is {got}, expected {want} (last signer {signer}, edited since: {dirty})')
+                    break
+            if bad:
+                break
+        if bad:
+            break
+    run.case(case, nontrivial=True, sample=(idx < 2))
+    run.count('sign-sequence:' + start)
+    if bad:
+        run.violation(case, bad, signature={'kind': 'sign-sequence', 'start': start, 'ops': ops})
 
 
 def check_legacy(run, model, env, rng):
@@ -664,7 +845,9 @@ def main(run):
                 'Transaction.sign; every input checked by an independent parser + preimage builder + pure-Python ecdsa, and '
                 'the model preimage compared byte for byte with _serialize_for_signature. channel signatures: claims and '
                 'supports signed by channels, recomputed from raw bytes, then a mutation catalogue (signature bits, channel '
-                'hash, other channel, message bit flips, title, first input). legacy fixtures from upstream tests. '
+                'hash, other channel, message bit flips, title, first input; extra protobuf fields appended/prepended to the payload on the wire, '
+                'library verdict == independent verdict), every third claim carrying fields unknown to this schema; object histories '
+                '(sign/clear/edit/re-read from fresh, current-signed and earlier-release starts). legacy fixtures from upstream tests. '
                 'distinct = distinct raw transaction; all non-trivial.')
     try:
         check_legacy(run, model, env, rng)
@@ -678,6 +861,8 @@ def main(run):
         check_input_signatures(run, model, env, rng, 400253, boundary='n-inputs', boundary_len=253)
         for i in range(vlib.scaled(run.tier, 60, 1200)):
             check_input_signatures(run, model, env, rng, i)
+        for i in range(vlib.scaled(run.tier, 40, 800)):
+            check_sign_sequences(run, env, rng, i)
         for i in range(vlib.scaled(run.tier, 40, 800)):
             check_channel_signature(run, model, env, rng, i, 'support' if i % 4 == 3 else 'claim')
     finally:
